@@ -160,6 +160,11 @@ func (s *httpServer) doDeleteTopic(w http.ResponseWriter, req *http.Request, ps 
 		return nil, http_api.Err{400, "MISSING_ARG_TOPIC"}
 	}
 
+	// "*" would match (and delete) every topic
+	if !protocol.IsValidTopicName(topicName) {
+		return nil, http_api.Err{400, "INVALID_ARG_TOPIC"}
+	}
+
 	registrations := s.nsqlookupd.DB.FindRegistrations("channel", topicName, "*")
 	for _, registration := range registrations {
 		s.nsqlookupd.logf(LOG_INFO, "DB: removing channel(%s) from topic(%s)", registration.SubKey, topicName)
@@ -184,6 +189,11 @@ func (s *httpServer) doTombstoneTopicProducer(w http.ResponseWriter, req *http.R
 	topicName, err := reqParams.Get("topic")
 	if err != nil {
 		return nil, http_api.Err{400, "MISSING_ARG_TOPIC"}
+	}
+
+	// "*" would match every topic (and tombstone the node for an arbitrary one)
+	if !protocol.IsValidTopicName(topicName) {
+		return nil, http_api.Err{400, "INVALID_ARG_TOPIC"}
 	}
 
 	node, err := reqParams.Get("node")
